@@ -27,7 +27,8 @@ theorem numChar_facts {c : Nat} (h : numChar c = true) :
       · exact hc
       · simp [hc] at h
     · exact Or.inr h
-  simp only [isWs, Bool.or_eq_false_iff, Bool.and_eq_false_iff, decide_eq_false_iff_not, beq_eq_false_iff_ne]
+  have h128 : c < 128 := by omega
+  simp only [isWs, h128, if_true, Bool.or_eq_false_iff, Bool.and_eq_false_iff, decide_eq_false_iff_not]
   omega
 
 /-- value accumulated by reading the decimal digits of `n` after `a` -/
